@@ -58,7 +58,9 @@ func Gen(t *rapid.T) Op {
 		}
 		d := gen.Mesh(t, gen.MeshOpts{MaxN: 6, MaxPrims: 4, NeedPos: rapid.IntRange(0, 3).Draw(t, "needpos") > 0, Materials: true, DupPos: true, Val: val,
 			Attrs: []gen.AttrSpec{{Name: modeling.PositionAttribute, Arity: 3}, {Name: modeling.NormalAttribute, Arity: 3}, {Name: modeling.TexCoordAttribute, Arity: 2},
-				{Name: modeling.ColorAttribute, Arity: 3}, {Name: "w", Arity: 1}, {Name: modeling.RotationAttribute, Arity: 4}}}, "m")
+				{Name: modeling.ColorAttribute, Arity: 3}, {Name: "w", Arity: 1}, {Name: modeling.RotationAttribute, Arity: 4},
+				// the same names again in another dimension (Color as RGB in one mesh and RGBA in another)
+				{Name: modeling.ColorAttribute, Arity: 4}, {Name: "w", Arity: 3}}}, "m")
 		op.M = &d
 	case "prim":
 		op.X = []int{rapid.IntRange(0, 6).Draw(t, "prim"), rapid.IntRange(2, 5).Draw(t, "r"), rapid.IntRange(3, 6).Draw(t, "c")}
